@@ -42,18 +42,18 @@ theorem crossed_of_strict (L : Lits K) (h0 : L.zero = 0) (l r : K) :
 
 /-! ### event location: endpoint shortcuts and the Brent branch -/
 theorem locate_left (L : Lits K) (ip : Interp K) (gi : K → Array K → K) (xold x : K) (yold y : Array K) (gp gc : K)
-    (h : |gp| ≤ L.xtol) : locate L ip gi xold x yold y gp gc = (xold, yold, #[]) := by
-  simp [locate, h]
+    (hz : L.zero = 0) (h : gp = 0) : locate L ip gi xold x yold y gp gc = (xold, yold, #[]) := by
+  simp [locate, h, hz]
 
 theorem locate_right (L : Lits K) (ip : Interp K) (gi : K → Array K → K) (xold x : K) (yold y : Array K) (gp gc : K)
-    (h1 : ¬ |gp| ≤ L.xtol) (h2 : |gc| ≤ L.xtol) : locate L ip gi xold x yold y gp gc = (x, y, #[]) := by
-  simp [locate, h1, h2]
+    (hz : L.zero = 0) (h1 : gp ≠ 0) (h2 : gc = 0) : locate L ip gi xold x yold y gp gc = (x, y, #[]) := by
+  simp [locate, h1, h2, hz]
 
 /-- in the Brent branch the reported state is the step interpolant evaluated at the reported time -/
 theorem locate_state_is_interp (L : Lits K) (ip : Interp K) (gi : K → Array K → K) (xold x : K) (yold y : Array K) (gp gc : K)
-    (h1 : ¬ |gp| ≤ L.xtol) (h2 : ¬ |gc| ≤ L.xtol) :
+    (hz : L.zero = 0) (h1 : gp ≠ 0) (h2 : gc ≠ 0) :
     (locate L ip gi xold x yold y gp gc).2.1 = ip.eval (locate L ip gi xold x yold y gp gc).1 := by
-  simp [locate, h1, h2]
+  simp [locate, h1, h2, hz]
 
 /-! ### terminal events -/
 
